@@ -31,6 +31,8 @@ pub enum Op {
     Join(usize),
     /// Plain scheduling point
     Yield(&'static str),
+    /// Attempt to acquire a mutex without waiting (always enabled: the attempt fails if the mutex is held at that moment)
+    TryLock(usize),
 }
 
 /// What the harness implements
@@ -144,6 +146,11 @@ pub mod sync {
         #[track_caller]
         pub fn try_lock(&self) -> TryLockResult<MutexGuard<'_, T>> {
             let loc = Location::caller();
+
+            // An outermost try_lock observes whether another thread is inside a critical section: it is a scheduling point
+            if let Some(rt) = rt() {
+                if depth() == 0 { rt.point(Op::TryLock(self.id), loc); }
+            }
 
             match self.inner.try_lock() {
                 Ok(guard)                           => Ok(self.wrap(guard, loc, true)),
